@@ -177,7 +177,7 @@ func c13Gauges(reg *prometheus.Registry) (conn, req float64, ok bool) {
 
 func TestVerif_C13(t *testing.T) {
 	rep := vk.NewReport(t, "C13", "exploration")
-	rep.Rule = "seeded handler compositions (default, cache, router, SQLite, merges of 2-4 of them nested once) wrapped in 0-5 of the provided middlewares (all limit middlewares, both unique filters, allow/deny, quota, logging, Prometheus, NIP-11 chain); a seeded client history is cut at a seeded point (before the first message .. after the last) by {cancel with a draining peer, cancel with a stalled peer, cancel with a peer that read 1-3 messages and then stalled, inbound close with a draining peer}; oracle: ServeNostr returns within the bound (a goroutine parked in mocrelay code is the witness), no goroutine started by mocrelay code during the session survives, router registries are empty again, connection/subscription gauges are back to 0; a router-backlog scenario (subscriber with 2..buffer deliveries queued reads 0-2 of them, stalls and is cancelled; run twice per handler); plus the WebSocket clause: a raw TCP peer that completes the handshake and never reads, handler flooding 60 kB messages, for send timeout x ping interval (incl. disabled) x start delay x {silent peer, peer that keeps sending binary / non-message text frames}: the handler's session must end within 50 x send timeout and Relay.ServeHTTP must return; non-trivial = a session with at least one message processed and a non-default base or a middleware; distinct = distinct (composition, ending, cut position bucket)"
+	rep.Rule = "seeded handler compositions (default, cache, router, SQLite, merges of 2-4 of them nested once) wrapped in 0-5 of the provided middlewares (all limit middlewares, both unique filters, allow/deny, quota, logging, Prometheus, NIP-11 chain); a seeded client history is cut at a seeded point (before the first message .. after the last) by {cancel with a draining peer, cancel with a stalled peer, cancel with a peer that read 1-3 messages and then stalled, inbound close with a draining peer}; oracle: ServeNostr returns within the bound (a goroutine parked in mocrelay code is the witness), no goroutine started by mocrelay code during the session survives, router registries are empty again, connection/subscription gauges are back to 0; a router-backlog scenario (subscriber with 2..buffer deliveries queued reads 0-2 of them, stalls and is cancelled; run twice per handler); plus the WebSocket clause: a raw TCP peer that completes the handshake and never reads, handler flooding 60 kB messages, for send timeout x ping interval (incl. disabled) x start delay x {silent peer, peer that keeps sending binary / non-message text frames / valid REQs beyond the burst of a 0.02 per second receive rate limit}: the handler's session must end within 50 x send timeout and Relay.ServeHTTP must return; non-trivial = a session with at least one message processed and a non-default base or a middleware; distinct = distinct (composition, ending, cut position bucket)"
 	defer rep.Finish()
 	ctx := context.Background()
 	n := vk.N(600, 12000)
@@ -579,14 +579,14 @@ func TestVerif_C13(t *testing.T) {
 	// WebSocket clause
 	type wsCase struct {
 		sendTimeout, ping, delay time.Duration
-		noise                    int // 0: the peer is silent; 1: it keeps sending binary frames; 2: text frames that are not client messages
+		noise                    int // 0: the peer is silent; 1: it keeps sending binary frames; 2: text frames that are not client messages; 3: valid REQs beyond the burst of a very low receive rate limit
 	}
 	var cases []wsCase
 	for _, st := range []time.Duration{50 * time.Millisecond, 200 * time.Millisecond} {
 		for _, pg := range []time.Duration{0, 20 * time.Millisecond, time.Hour} {
 			for _, dl := range []time.Duration{0, 70 * time.Millisecond} {
 				cases = append(cases, wsCase{st, pg, dl, 0})
-				cases = append(cases, wsCase{st, pg, dl, 1 + len(cases)/2%2})
+				cases = append(cases, wsCase{st, pg, dl, 1 + len(cases)/2%3})
 			}
 		}
 	}
@@ -615,6 +615,10 @@ func TestVerif_C13(t *testing.T) {
 					for {
 						select {
 						case send <- big:
+						case _, ok := <-recv: // keeps taking input, so that the read loop is never parked on the handler
+							if !ok {
+								recv = nil
+							}
 						case <-ctx.Done():
 							return ctx.Err()
 						}
@@ -623,6 +627,11 @@ func TestVerif_C13(t *testing.T) {
 				opt := mocrelay.NewDefaultRelayOption()
 				opt.SendTimeout = c.sendTimeout
 				opt.PingDuration = c.ping
+				if c.noise == 3 {
+					// the read loop spends its time waiting for the rate limiter
+					opt.RecvRateLimitRate = 0.02
+					opt.RecvRateLimitBurst = 2
+				}
 				rl := mocrelay.NewRelay(h, opt)
 				httpDone := make(chan struct{})
 				var httpOnce sync.Once
@@ -666,6 +675,10 @@ func TestVerif_C13(t *testing.T) {
 						if c.noise == 2 {
 							frame = append([]byte{0x81, 0x88, 0, 0, 0, 0}, "not json"...)
 						}
+						if c.noise == 3 {
+							req := `["REQ","a",{}]`
+							frame = append([]byte{0x81, 0x80 | byte(len(req)), 0, 0, 0, 0}, req...)
+						}
 						for {
 							conn.SetWriteDeadline(time.Now().Add(time.Second))
 							if _, err := conn.Write(frame); err != nil {
@@ -683,7 +696,7 @@ func TestVerif_C13(t *testing.T) {
 				}
 				t0 := time.Now()
 				bound := 50*c.sendTimeout + c.delay + 2*time.Second
-				desc := fmt.Sprintf("send timeout %v, ping %v, handler starts flooding after %v, peer %s", c.sendTimeout, c.ping, c.delay, []string{"silent", "sends binary frames", "sends non-message text frames"}[c.noise])
+				desc := fmt.Sprintf("send timeout %v, ping %v, handler starts flooding after %v, peer %s", c.sendTimeout, c.ping, c.delay, []string{"silent", "sends binary frames", "sends non-message text frames", "sends REQs beyond the burst of a 0.02/s receive rate limit"}[c.noise])
 				rep.Eval(1)
 				select {
 				case <-ended:
